@@ -134,7 +134,7 @@ def membership(nodes):
     return [NODE_REGISTRY.get(n.id) is n for n in nodes]
 
 
-MAY_UNREGISTER = ("detach", "detach_self", "replace-ok", "replace-child-with-other-tree", "dict-roundtrip-after-detach")
+MAY_UNREGISTER = ("detach", "detach_self", "replace-ok", "replace-nothing", "replace-child-with-other-tree", "dict-roundtrip-after-detach")
 
 
 def snapshot(nodes):
@@ -203,6 +203,7 @@ def unary_ops():
         ops[f"transform-{k}"] = (lambda kk: lambda t: tv(kk).transform(t))(k)
     ops["duplicate"] = lambda t: t.duplicate()
     ops["replace-ok"] = lambda t: t.replace(tag=9) if isinstance(t, FP) else (t.replace(w=()) if isinstance(t, FU) else t.replace(v=9))
+    ops["replace-nothing"] = lambda t: t.replace()   # a new node with the same content (and, the original gone, the same id)
     ops["replace-failing"] = lambda t: t.replace(nosuch=1)
     # late failures: the new node is already built (and registered) when the subclass' own __post_init__ raises;
     # nc does not enter the id (the half-built node takes the original's id), v does
@@ -332,10 +333,22 @@ def run_history(rec, u, b, hist):
         except Exception as e:  # noqa: BLE001
             rec.outcome(f"{name.split('-')[0]}:{type(e).__name__}")
         after = snapshot(nodes)
-        if name not in MAY_UNREGISTER and membership(nodes) != member:
-            # registry membership of an existing node may change only as specified for detach and replace
-            rec.violation(f"C10|membership|{name.split('-')[0]}", dict(case, step=step), f"operation {name} changed the registry membership of an existing node")
-            return
+        now = membership(nodes)
+        if now != member:
+            # registry membership of an existing node may change only as specified: detach unregisters the receiver's subtree,
+            # detach_self and replace the receiver alone; nothing becomes registered; nobody else is touched
+            recv = pool[args[0]]
+            if name in ("detach", "dict-roundtrip-after-detach"):
+                allowed = {id(recv)} | {id(i.node) for i in recv.dfs()}
+            elif name in MAY_UNREGISTER:
+                allowed = {id(recv)}
+            else:
+                allowed = set()
+            wrong = [type(n).__name__ for n, a, b in zip(nodes, member, now) if a != b and (id(n) not in allowed or b)]
+            if wrong:
+                rec.violation(f"C10|membership|{name.split('-')[0]}", dict(case, step=step),
+                              f"operation {name} changed the registry membership of existing node(s) it has no business with: {wrong[:4]}")
+                return
         if after != snap:
             diff = [(type(nodes[i]).__name__, [a[0] for a, c in zip(snap[i][4:], after[i][4:]) if a != c] or "id/content_id/hash") for i in range(len(nodes)) if snap[i] != after[i]]
             rec.violation(f"C10|frame|{name.split('-')[0]}", dict(case, step=step), f"operation {name} modified existing node(s): {diff[:3]}")
